@@ -1,0 +1,40 @@
+//! Verification hook (feature `verif-hooks`, off by default): a thread-local log of every access the
+//! four storage primitives perform. No state is added to the record itself.
+
+use std::cell::RefCell;
+
+/// One access performed by `read` / `write` / `get` / `get_mut`.
+#[derive(Clone, Debug)]
+pub struct Access {
+    pub kind: &'static str,
+    pub base: usize,
+    pub offset: usize,
+    pub size: usize,
+    pub align: usize,
+    pub type_name: &'static str,
+    pub cap: usize,
+}
+
+thread_local! {
+    static LOG: RefCell<Vec<Access>> = RefCell::new(Vec::new());
+}
+
+/// Records one access.
+pub fn record<T>(kind: &'static str, base: usize, offset: usize, cap: usize) {
+    let access = Access {
+        kind,
+        base,
+        offset,
+        size: std::mem::size_of::<T>(),
+        align: std::mem::align_of::<T>(),
+        type_name: std::any::type_name::<T>(),
+        cap,
+    };
+    // Accesses performed while the thread-local is being destroyed are not logged.
+    let _ = LOG.try_with(|log| log.borrow_mut().push(access));
+}
+
+/// Takes the accesses logged so far by this thread.
+pub fn take() -> Vec<Access> {
+    LOG.with(|log| std::mem::take(&mut *log.borrow_mut()))
+}
